@@ -103,4 +103,22 @@ def inext : Nat → Reader → IRes
         | some ty => let (ln, r2) := lineLoop (f+1) r1 []; .ok (.line ty ln) r2
     | ([], _) => .eof
 
+/-- The Go functions of `redis/proto` that this file (and `Reader`, `Resp`) transcribes, with the fingerprint of the source
+they were transcribed from (FNV-1a 64 of signature and body as go/printer prints them, whitespace collapsed) and the
+definition that transcribes each.  `Generated.protoFingerprints` is regenerated from /repo on every run and must contain
+every entry (`C02_source_parser_is_the_modelled_one`, `C01_source_serializer_is_the_modelled_one`): a change to one of
+these functions means the transcription has to be looked at again – until then the check treats the theorems about it as
+no longer shown for the code, and searches for a failing input with the differential. -/
+def parserModelled : List (String × Nat × String) := [
+  ("Parser.Next", 10069049075977101191, "inext"),
+  ("Parser.nextArrayMessage", 12841142932256633484, "inext (array branch)"),
+  ("Parser.nextBulkMessage", 4731615691933970192, "inext (bulk branch)"),
+  ("Parser.nextLengthBytes", 8625509693833932105, "lenLoop"),
+  ("Parser.nextLineBytes", 15306031760255691629, "lineLoop"),
+  ("newArrayWithParser", 2397362184235602053, "ielems")]
+
+def serializerModelled : List (String × Nat × String) := [
+  ("Array.RESPBytes", 9708786277464342792, "enc (.arr es)"),
+  ("Message.RESPBytes", 14589052334745002506, "enc")]
+
 end GoRedis
